@@ -55,7 +55,7 @@ CLAIMED = {
     "C11": (
         "guarded-emission analysis (R-GUARD): rule registrations with rule-set flags, emission call sites resolved to table rows/register class/operand form through helper calls with accumulated target_flags guards, ISA level per instruction form from GNU as under restricted -march sets",
         "Decides sentence 1 for all three x86 backends: every instruction an emitter can produce (about 2000 distinct rule/site/row/class obligations) needs an ISA level implied by the required flags of every rule set the rule is registered in plus the target_flags tests dominating the site; non-rule emitters are held to the weakest rule-set requirement of their backend. Sentence 2 (same results for every flag subset) is not decided.",
-        "Trusted: binutils' extension tables as ISA reference; hardware implication between ladder levels; MMXEXT implies only the SSE integer extensions on mm registers. Sites whose opcode argument is not constant-resolvable are listed as information.",
+        "Trusted: binutils' extension tables as ISA reference; flags independent above the target's base level (own-flag semantics), hardware implication trusted only at or below it; MMXEXT implies only the SSE integer extensions on mm registers. Sites whose opcode argument is not constant-resolvable are listed as information.",
         "DESIGN.md §4 C11"),
     "C10": (
         "sibling comparison of prologue pushes and epilogue pops (register, predicate, order, loop direction), ABI reference tables vs save_regs/valid_regs stores, abstract interpretation of the MXCSR emission sequences over {ORIG, MOD} slot values, path search with boolean-constant tracking for set=>restore and emms-before-epilogue, row-based checks for vzeroupper/ret and stack adjustment",
